@@ -10,6 +10,7 @@ all five operators, all nine container combinations, lists of ANY length and all
 `d` (`numpyDefers`) is irrelevant here because the left operand is a barril object.
 -/
 import Barril.Proofs.OpsLemmas
+import Barril.Props.C09
 
 namespace Barril.Ops
 open Barril
@@ -57,6 +58,24 @@ theorem array_op_of_scalars (env : Env) (d : Bool) (op : Op) (q1 q2 : Quantity) 
   cases hf'
   rw [List.getElem_zip]
   exact ha
+
+/-- the same with a plain number as the second operand (`x op k`, quantities in normal form, see C09):
+every element of `Array op k` is `Scalar op k` on the corresponding Scalar, with the same quantity -/
+theorem array_num_elementwise {env : Env} (hl : env.Lawful) (d : Bool) (op : Op) {q : Quantity} (hq : Normal env q)
+    (kind : Kind) (vs : List Rat) (np : Bool) (k : Rat) (o : Out)
+    (h : binop env d op (.array q kind vs) (.num np k) = .ok o) :
+    ∃ zs, o = .array q kind zs ∧ zs.length = vs.length ∧
+      ∀ i (h1 : i < vs.length) (h2 : i < zs.length),
+        binop env d op (.scalar q vs[i]) (.num np k) = .ok (.scalar q zs[i]) := by
+  rw [array_op_num hl d op hq] at h
+  cases hm : mapE (fun x => vop op x k) vs with
+  | error e => simp [hm, Except.map] at h
+  | ok zs =>
+    simp only [hm, Except.map, Except.ok.injEq] at h
+    obtain ⟨hlen, hall⟩ := (mapE_eq_ok_iff _ _ _).mp hm
+    refine ⟨zs, h.symm, hlen, fun i h1 h2 => ?_⟩
+    rw [scalar_op_num, hall i h1 h2]
+    rfl
 
 /-! ### independence of the container kind -/
 
